@@ -444,7 +444,11 @@ func (o *snapshotter) cleanupDirectories(ctx context.Context, cleanupCommitted b
 func (o *snapshotter) getCleanupDirectories(ctx context.Context, t storage.Transactor, cleanupCommitted bool) ([]string, error) {
 	ids, err := storage.IDMap(ctx)
 	if err != nil {
-		return nil, err
+		if !errdefs.IsNotFound(err) {
+			return nil, err
+		}
+		// No snapshot has ever been committed to the metadata store so no directory is in use.
+		ids = make(map[string]string)
 	}
 
 	snapshotDir := filepath.Join(o.root, "snapshots")
@@ -472,7 +476,7 @@ func (o *snapshotter) getCleanupDirectories(ctx context.Context, t storage.Trans
 				}
 			}
 			return nil
-		}); err != nil {
+		}); err != nil && !errdefs.IsNotFound(err) {
 			return nil, err
 		}
 	}
